@@ -35,7 +35,8 @@ RULE = ('Per function of the property: admissible parameter vectors drawn from m
         'around the optimum, the first 8 kinks, fractions and multiples (0.1..4x) of the optimum and random kinks up to twice the optimum. non-trivial = valid parameters '
         'with a strictly positive optimal cost and at least one alternative strictly worse; distinct = distinct (function, parameters).')
 
-C10_TRANSLATED = [q for q in py2v.EXPECTED]
+C10_MODULES = ('eoq', 'newsvendor', 'supply_uncertainty', 'loss_functions', 'optimization')      # rq / ss are translated too: tied and proved about in C14 (props/c14_gen.py)
+C10_TRANSLATED = [q for q in py2v.EXPECTED if q.split('.')[0] in C10_MODULES]
 REL = 1e-9
 EXPECT_TOL = 1e-6
 
@@ -847,7 +848,7 @@ def discrete_model_correspondence(chk, cases):
 # ------------------------------------------------------------------------------------------------ run
 def translate_and_build(chk):
     errs = py2v.translate_all()
-    chk.extra['translated_functions'] = sorted(py2v.FUNCS)
+    chk.extra['translated_functions'] = sorted(q for q in py2v.FUNCS if q.split('.')[0] in C10_MODULES)
     chk.extra['untranslated_functions'] = {q: e for q, e in errs if q not in C10_TRANSLATED}
     for q in C10_TRANSLATED:
         if q not in py2v.FUNCS:
@@ -862,6 +863,7 @@ def translate_and_build(chk):
 def run_tie(chk, n, n_other):
     cases = []
     for q in sorted(py2v.FUNCS):
+        if q.split('.')[0] not in C10_MODULES: continue
         k = n if q in C10_TRANSLATED else n_other
         for _ in range(k):
             cases.append((q, gen_args(q, chk.rng)))
